@@ -1,6 +1,6 @@
 (* The Q instance of the model, as the functions the runner calls. *)
 From Coq Require Import List ZArith QArith Bool.
-From SplipyModel Require Import Model.Num Model.BasisDef Model.BasisEval Model.Knots Model.Tensor Model.Obj Model.Deriv Model.KnotInsert Model.Reparam Model.Affine Model.Tol Model.StateCtx Model.Solve Model.Order Model.Split Model.Periodic Model.WF Model.Ops Model.Identical Model.Append Model.Factory Model.Interp Model.Section Model.Measure Model.Orient Model.Numbering Model.G2 Model.EvalForms Model.Stl Model.Spl Model.Faces Model.Catalogue Model.ConstPar Model.DefaultObj Gen.CircleNets Gen.DiscSquare.
+From SplipyModel Require Import Model.Num Model.BasisDef Model.BasisEval Model.Knots Model.Tensor Model.Obj Model.Deriv Model.KnotInsert Model.Reparam Model.Affine Model.Tol Model.StateCtx Model.Solve Model.Order Model.Split Model.Periodic Model.WF Model.Ops Model.Identical Model.Append Model.Factory Model.Interp Model.Section Model.Measure Model.Orient Model.Numbering Model.G2 Model.EvalForms Model.Stl Model.Spl Model.Faces Model.Catalogue Model.ConstPar Model.DefaultObj Model.Loft Model.InterpMore Model.Faces2 Gen.CircleNets Gen.DiscSquare.
 Import ListNotations.
 
 Definition q_basis_evaluate := @basis_evaluate Q NumQ.
@@ -91,4 +91,12 @@ Definition q_const_par_curve := @const_par_curve Q NumQ.
 Definition q_default_obj := @default_obj Q NumQ.
 Definition q_default_obj_rat := @default_obj_rat Q NumQ.
 Definition q_obj_bounding_box := @obj_bounding_box Q NumQ.
+Definition q_loft := @loft Q NumQ.
+Definition q_vloft := @vloft Q NumQ.
+Definition q_volume_interpolate := @volume_interpolate Q NumQ.
+Definition q_surface_lsq := @surface_lsq Q NumQ.
+Definition q_volume_lsq := @volume_lsq Q NumQ.
+Definition q_cubic_periodic := @cubic_periodic Q NumQ.
+Definition x_model_faces := model_faces.
+Definition x_conform := conform.
 Definition q_res_witness (e : err) : res unit := Err e.
